@@ -9,8 +9,11 @@ Slots.lean
     `self.unary_operator(state, "<dunder>")`, the handler order of the `binops` list in
     `byte_BINARY_OP`, and CPython's own numbering of the BINARY_OP argument (`opcode._nb_ops`).
 
-BuiltinOps.lean — two finite tables over the *value classes* of fragment F14 (builtin scalars and
-container displays, builtin functions, and `user` = an instance of a dunder-less user class):
+BuiltinOps.lean — two finite tables over the *value classes* of fragment F14: builtin scalars (as
+literals and as names bound to literals — CPython folds `1 * 1.5` before pytype sees an operator),
+container displays, builtin functions, and two pseudo-classes for operands that are user-class
+instances as builtin signatures see them: `user` (a class defining none of the modelled dunders) and
+`useri` (a class with `__getitem__`, which pytype's matcher accepts as an `Iterable`):
   * pytype's view : for every row (operator/subscript/unary minus/call/attribute/method call/builtin
     function call; left class; right class) whether the REAL pytype reports an error for the canonical
     representative statement.  Obtained by running `io.generate_pyi` on generated modules with one
@@ -268,7 +271,7 @@ def pytype_view(use_cache=True):
   """row key -> sorted list of error names reported on the canonical statement ([] = silent)."""
   rs = rows()
   stmts = [canonical_stmt(r) for r in rs]
-  key = source_key(json.dumps(stmts))
+  key = source_key(json.dumps([PREAMBLE, stmts]))
   path = os.path.join(CACHE, key + ".json")
   if use_cache and os.path.exists(path):
     try:
